@@ -354,7 +354,10 @@ namespace pika::threads::detail {
                 PIKA_DETAIL_DP(spq_deb<7>, set(msg, "HINT_THREAD"));
                 // @TODO. We should check that the thread num is valid
                 // Create thread on requested worker thread
-                thread_num = select_active_pu(l, data.schedulehint.hint);
+                // an out-of-range hint (e.g. -1 from a thread that has not recorded a worker yet)
+                // must not index the lookup tables below; wrap it like the other schedulers do
+                thread_num = select_active_pu(
+                    l, static_cast<std::size_t>(data.schedulehint.hint) % num_workers_);
                 domain_num = d_lookup_[thread_num];
                 q_index = q_lookup_[thread_num];
                 break;
@@ -740,7 +743,11 @@ namespace pika::threads::detail {
                     debug(str<>("schedule_thread"), "received HINT_THREAD",
                         dec<3>(schedulehint.hint),
                         threadinfo<threads::detail::thread_id_ref_type*>(&thrd)));
-                thread_num = select_active_pu(l, schedulehint.hint, true /*allow_fallback*/);
+                // an out-of-range hint (e.g. -1 from a thread that has not recorded a worker yet)
+                // must not index the lookup tables below; wrap it like the other schedulers do
+                thread_num = select_active_pu(l,
+                    static_cast<std::size_t>(schedulehint.hint) % num_workers_,
+                    true /*allow_fallback*/);
                 domain_num = d_lookup_[thread_num];
                 q_index = q_lookup_[thread_num];
                 break;
